@@ -335,3 +335,83 @@ func TestReproMPTStageStuckAfterRejectedBatch(t *testing.T) {
 		t.Fatalf("stuck: NeedStorageData() = true, NeedBlocks() = %v, GetUnknownMPTNodesBatch() is empty (nothing will ever be requested)", d.mod.NeedBlocks())
 	}
 }
+
+// serverRounds plays n request rounds of (*Server).requestBlocks against a queue whose peers have every block.
+func serverRounds(led *ledger, bq *bqueue.Queue[*qb], cache, n int) {
+	for r := 0; r < n; r++ {
+		h := led.peek()
+		lq, capLeft := bq.LastQueued()
+		if capLeft != 0 {
+			from, count := h+1, cache
+			if lq >= from {
+				count = min(count, capLeft)
+				from = lq + 1
+			}
+			for i := from; i < from+uint32(count); i++ {
+				_ = bq.Put(&qb{idx: i})
+			}
+		}
+		time.Sleep(2 * time.Millisecond)
+	}
+}
+
+// TestReproQueueDropsNextLapBlock forces the interleaving behind the schedule-dependent stall: Run reads the chain
+// height h WITHOUT the queue lock; while it is held back, consensus adds h+1 directly and a peer's block h+1+cache
+// is (legitimately) put into the slot of h+1, where lastQ starts counting it. Run then takes whatever is in that slot,
+// AddItem fails, and Run removes the block from the queue. lastQ still covers it, and (*Server).requestBlocks
+// requests only from lastQ+1 when lastQ >= height+1, so the block is never asked for again: the node stops for good.
+func TestReproQueueDropsNextLapBlock(t *testing.T) {
+	reproGate(t)
+	const cache = 4
+	led := &ledger{consWait: -1, top: 1 << 30}
+	ledInit(led)
+	bq := bqueue.New[*qb](led, zap.NewNop(), nil, cache, nil, bqueue.NonBlocking)
+	go bq.Run()
+	defer bq.Discard()
+	for led.ncalls.Load() < 1 { // Run's initial Height()
+		time.Sleep(time.Millisecond)
+	}
+	// calls from now on: #2 = Put(1)'s Height(), #3 = Run's Height() at the top of its loop  -> hold #3 back
+	g := &heightGate{call: 3, reached: make(chan struct{}), release: make(chan struct{})}
+	led.gate.Store(g)
+	_ = bq.Put(&qb{idx: 1})
+	<-g.reached // Run has read height 0 and is "descheduled"
+	for i := uint32(2); i <= cache; i++ {
+		_ = bq.Put(&qb{idx: i})
+	}
+	led.direct()            // consensus adds block 1: height 1
+	_ = bq.Put(&qb{idx: 5}) // in the window of height 1; same slot as block 1; lastQ becomes 5
+	lq, _ := bq.LastQueued()
+	t.Logf("before Run continues: height %d, LastQueued() = %d", led.peek(), lq)
+	close(g.release)
+	serverRounds(led, bq, cache, 60)
+	lq, capLeft := bq.LastQueued()
+	led.mu.Lock()
+	calls := fmtCalls(led.calls, 3)
+	led.mu.Unlock()
+	t.Logf("ledger calls: %s", calls)
+	if h := led.peek(); h < 30 {
+		t.Fatalf("after 60 request rounds with every block available the chain is stuck at height %d; LastQueued() = (%d, capacity left %d): block %d was dropped from the queue but is still covered by lastQ", h, lq, capLeft, h+1)
+	}
+}
+
+// TestReproQueueForgetsRejectedBlock: the same bookkeeping hole without any race: the ledger rejects the first copy
+// of block 3 (say, a peer sent garbage with the right index). Run removes it, lastQ keeps covering index 3.
+func TestReproQueueForgetsRejectedBlock(t *testing.T) {
+	reproGate(t)
+	const cache = 4
+	led := &ledger{consWait: -1, top: 1 << 30, rejectOnce: 3}
+	ledInit(led)
+	bq := bqueue.New[*qb](led, zap.NewNop(), nil, cache, nil, bqueue.NonBlocking)
+	go bq.Run()
+	defer bq.Discard()
+	_ = bq.Put(&qb{idx: 4})
+	_ = bq.Put(&qb{idx: 3})
+	_ = bq.Put(&qb{idx: 2})
+	_ = bq.Put(&qb{idx: 1}) // lastQ = 4 (modulo the ring wrap), 1 and 2 are applied, 3 is rejected and removed
+	serverRounds(led, bq, cache, 60)
+	lq, capLeft := bq.LastQueued()
+	if h := led.peek(); h < 30 {
+		t.Fatalf("after 60 request rounds the chain is stuck at height %d; LastQueued() = (%d, capacity left %d)", h, lq, capLeft)
+	}
+}
